@@ -496,13 +496,15 @@ func (k *fakeKey) ImportCertificate(*x509.Certificate) error { return nil }
 // fakeToken: per key name a list of key ids (the last one is current; earlier ones stay
 // available, as on an HSM after rotation), and a queue of scripted errors per stage.
 type fakeToken struct {
-	mu     sync.Mutex
-	ids    map[string][][]byte
-	errs   map[string][]error // stage -> errors for successive calls (nil = succeed)
-	calls  atomic.Int64
-	fetch  atomic.Int64
-	tc     *config.TokenConfig
-	closed bool
+	mu    sync.Mutex
+	ids   map[string][][]byte
+	errs  map[string][]error // stage -> errors for successive calls (nil = succeed)
+	calls atomic.Int64
+	fetch atomic.Int64
+	tc    *config.TokenConfig
+	// gateCtx: a gated fetch gives up with the context's error when its context ends (a token that honours cancellation)
+	gateCtx bool
+	closed  bool
 	// gate: when set, a pinned fetch announces itself on `entered` and waits for `gate` (cacherace ops)
 	gate    chan struct{}
 	entered chan struct{}
@@ -537,7 +539,15 @@ func (t *fakeToken) GetKey(ctx context.Context, name string) (token.Key, error) 
 		case t.entered <- struct{}{}:
 		default:
 		}
-		<-t.gate
+		if t.gateCtx {
+			select {
+			case <-t.gate:
+			case <-ctx.Done():
+				return nil, ctx.Err()
+			}
+		} else {
+			<-t.gate
+		}
 	}
 	t.mu.Lock()
 	defer t.mu.Unlock()
@@ -901,6 +911,72 @@ func runCacheRaceRev(exp time.Duration, k int) string {
 	return "ok " + worst
 }
 
+// cachecancel <expiry: 0|1> <k>: request A (unpinned, cancellable context) is inside a slow backend fetch for key "k" when k
+// other requests for the same key arrive with contexts of their own; then A's client goes away (A's context is cancelled)
+// and the backend becomes fast again.  A may fail with its context's error; every other request must be answered as it
+// would be in isolation: with the key, not with A's cancellation.
+func runCacheCancel(f []string) string {
+	exp := time.Duration(hx.Atoi(f[0])) * cacheUnit
+	k := int(hx.Atoi(f[1]))
+	tok := newFakeToken()
+	tok.gate, tok.entered = make(chan struct{}), make(chan struct{}, 1)
+	tok.gateUnpinned, tok.gateCtx = true, true
+	c := tokencache.New(tok, exp)
+	actx, cancel := context.WithCancel(context.Background())
+	defer cancel()
+	adone := make(chan error, 1)
+	go func() {
+		_, err := c.GetKey(actx, "k")
+		adone <- err
+	}()
+	select {
+	case <-tok.entered:
+	case <-time.After(5 * time.Second):
+		return "err first-fetch-not-started"
+	}
+	type res struct {
+		id  int
+		err error
+	}
+	others := make(chan res, k)
+	for i := 0; i < k; i++ {
+		go func() {
+			key, err := c.GetKey(context.Background(), "k")
+			if err != nil {
+				others <- res{0, err}
+				return
+			}
+			others <- res{int(key.GetID()[0]), nil}
+		}()
+	}
+	time.Sleep(150 * time.Millisecond)
+	cancel()
+	select {
+	case <-adone:
+	case <-time.After(5 * time.Second):
+		return "ok b=? cancelled-request-hung"
+	}
+	time.Sleep(50 * time.Millisecond)
+	close(tok.gate)
+	worst := "b=1"
+	for i := 0; i < k; i++ {
+		select {
+		case o := <-others:
+			if o.err != nil {
+				worst = "b=!" + strings.ReplaceAll(o.err.Error(), " ", "_")
+			} else if o.id != 1 && !strings.HasPrefix(worst, "b=!") {
+				worst = fmt.Sprintf("b=%d", o.id)
+			}
+		case <-time.After(10 * time.Second):
+			return "ok b=? request-hung"
+		}
+	}
+	return "ok " + worst
+}
+
+// RunCacheCancel is exported for C14 (one request's cancellation must not leak into another request)
+func RunCacheCancel(f []string) string { return runCacheCancel(f) }
+
 // RunCacheRace is exported for C07 (a key lookup that resolves to another key than the one requested)
 func RunCacheRace(f []string) string { return runCacheRace(f) }
 
@@ -994,6 +1070,8 @@ func runOp(f []string) (res string) {
 		return runCacheRace(f[2:])
 	case "wpin":
 		return runWPin(f[2:])
+	case "cachecancel":
+		return runCacheCancel(f[2:])
 	case "delays":
 		return "ok " + fmtDurs(delaySeq(int(hx.Atoi(f[2]))))
 	case "fatal":
